@@ -274,6 +274,30 @@ def Ring.poll (r : Ring) (script : List Enter) (last : Enter) : Ring × PushRaw 
     | (r2, PushRaw.spin) => (r2, PushRaw.spin)
     | (r2, PushRaw.ok) => ((r2.enter last).pollEntries, PushRaw.ok)
 
+/-! ### the io_uring driver as a labelled transition system -/
+
+inductive RStep where
+  | pushOp (id : Id) (script : List Enter)
+  | pushBlocking (id : Id)
+  | jobDone (id : Id) (res : Res)
+  | poll (script : List Enter) (last : Enter)
+  /-- the kernel posts completions on its own (an armed request became ready) -/
+  | kernel (posted : List Cqe)
+  | pop (id : Id)
+  | setWaker (id : Id) (w : WakerId)
+  | cancel (id : Id)
+deriving Repr
+
+def Ring.step (r : Ring) : RStep → Ring
+  | .pushOp id script => (r.pushOp id script).1
+  | .pushBlocking id => r.pushBlocking id
+  | .jobDone id res => r.jobDone id res
+  | .poll script last => (r.poll script last).1
+  | .kernel posted => r.enter ⟨0, posted⟩
+  | .pop id => { r with keys := (r.keys.pop id).1 }
+  | .setWaker id w => { r with keys := r.keys.setWaker id w }
+  | .cancel id => r.cancel id
+
 /-! ## `Submit` / `SubmitMulti` futures (compio-runtime/src/future) -/
 
 inductive FutState where
